@@ -385,6 +385,41 @@ theorem listing_skips_dotfiles_and_escapes (fs : Fs) (cfg : Config) (f url : Byt
     · rw [e]; exact escapedFor_escape_append r.name [] (by decide) (by decide) (by decide)
     · rw [e]; exact escapedFor_escape_append r.name [47] (by decide) (by decide) (by decide)
 
+/-- **listing_href_attribute_safe.**  The link target of every row — `util::urlencode(name)` plus `/`
+for directories, over the byte classes extracted from `urlencode_impl` — is safe inside the
+single-quoted `href='…'` the code puts it in: it contains none of `' " < > &`, so no entry name can
+end the attribute early or open markup.  Consequently the whole anchor the code writes is read back
+by an HTML parser as exactly (href, text) (`Spec.parseAnchor`), and the row satisfies the judge's
+predicate `Spec.rowOk` for the directory that was read. -/
+theorem listing_href_attribute_safe (fs : Fs) (cfg : Config) (f url : Bytes) (path : Path) (rows : List Row)
+    (h : main fs cfg f = .listing url path rows) :
+    ∃ names, fs.readdir (cstr path) = some names ∧
+      ∀ r ∈ rows, attrSafe r.href = true ∧ parseAnchor r.anchor = some (r.href, r.text) ∧
+        rowOk names r.anchor = true := by
+  obtain ⟨_, _, names, hrd, hrows⟩ := listing_skips_dotfiles_and_escapes fs cfg f url path rows h
+  refine ⟨names, hrd, ?_⟩
+  intro r hr
+  obtain ⟨hmem, hdot, hadd, hesc⟩ := hrows r hr
+  have hsafe : attrSafe r.href = true := by
+    unfold Row.href
+    rw [attrSafe_append, attrSafe_urlencode]
+    rcases hadd with e | e <;> rw [e] <;> rfl
+  have hparse : parseAnchor r.anchor = some (r.href, r.text) := by
+    rw [Row.anchor_eq]
+    exact parseAnchor_build r.href r.text (attrSafe_no_quote r.href hsafe)
+  refine ⟨hsafe, hparse, ?_⟩
+  unfold rowOk
+  rw [hparse]
+  simp only [hsafe, Bool.true_and, List.any_eq_true]
+  refine ⟨r.name, hmem, ?_⟩
+  have hd : (r.name.head? != some 46) = true := by simpa using hdot
+  rcases hadd with e | e
+  · rw [e] at hesc
+    simp only [List.append_nil] at hesc
+    simp [hd, hesc]
+  · rw [e] at hesc
+    simp [hd, hesc]
+
 /-- **listing_rows_exact.**  Exactly which entries are omitted: a name is shown iff it does not start
 with `.` and `stat(dir/name)` succeeded with the `S_IFDIR` or the `S_IFREG` bit (everything else —
 dot-files, dangling links, FIFOs, devices — is left out); order is `readdir` order. -/
@@ -489,7 +524,8 @@ theorem file_server_property (fs : Fs) (cfg : Config) (target : Bytes)
         cfg.listing = true ∧ Confined fs cfg (pathInfoOfTarget target) path ∧
         escapedFor (pathInfoOfTarget target) (escape url) = true ∧
         ∃ names, fs.readdir path = some names ∧
-          ∀ r ∈ rows, r.name ∈ names ∧ r.name.head? ≠ some 46 ∧ escapedFor (r.name ++ r.add) r.text = true
+          ∀ r ∈ rows, r.name ∈ names ∧ r.name.head? ≠ some 46 ∧ escapedFor (r.name ++ r.add) r.text = true ∧
+            attrSafe r.href = true ∧ rowOk names r.anchor = true
     | .serve path content =>
         Confined fs cfg (pathInfoOfTarget target) path ∧ ftype (fs.mode path) = ftReg ∧ fs.read path = some content := by
   cases hm : main fs cfg (pathInfoOfTarget target) with
@@ -504,7 +540,10 @@ theorem file_server_property (fs : Fs) (cfg : Config) (target : Bytes)
     · rw [← hc.1]; exact hrd
     · intro r hr'
       obtain ⟨h1, h2, _, h4⟩ := hrows r hr'
-      exact ⟨h1, h2, h4⟩
+      obtain ⟨names2, hrd2, hrows2⟩ := listing_href_attribute_safe fs cfg _ url path rows hm
+      have : names2 = names := by rw [hrd] at hrd2; exact (Option.some.inj hrd2).symm
+      subst this
+      exact ⟨h1, h2, h4, (hrows2 r hr').1, (hrows2 r hr').2.2⟩
   | serve path content =>
     have hop : openedPath fs cfg (pathInfoOfTarget target) = some path := by simp [openedPath, hm, Outcome.opened]
     have hc := http_request_confined fs cfg target path hfs hroots hi hr hop
